@@ -49,7 +49,7 @@ func pBool(b bool) pval      { return pval{typ: "BOOLEAN", text: fmt.Sprint(b), 
 func pFloat(t string, pos bool) pval { return pval{typ: "FLOAT", text: t, truth: pos} }
 
 // host function kinds: what the function returns
-var c20FnKinds = []string{"echo", "int", "string", "bool-false", "null", "void", "float", "array", "hash", "count", "panic", "empty-string", "zero", "negative"}
+var c20FnKinds = []string{"echo", "int", "string", "bool-false", "null", "void", "float", "array", "hash", "count", "panic", "empty-string", "zero", "negative", "collect", "collect"}
 
 type c20Model struct {
 	vars   map[string]pval
@@ -90,6 +90,14 @@ func (m *c20Model) callResult(kind string, name string, args []pval) (pval, bool
 	case "count":
 		m.counts[name]++
 		return pInt(m.counts[name]), false
+	case "collect":
+		// returns an array holding exactly its arguments (the host keeps the
+		// argument slice it was given)
+		parts := make([]string, len(args))
+		for i, a := range args {
+			parts[i] = a.text
+		}
+		return pval{typ: "ARRAY", text: "[" + strings.Join(parts, ", ") + "]", truth: len(args) > 0}, false
 	case "panic":
 		return pval{}, true
 	}
@@ -239,6 +247,20 @@ func (g *c20Gen) lit() pval {
 		return pFloat("1.5", true)
 	default:
 		return pInt(0)
+	}
+}
+
+// value is what SetVariable may store: every type, null included.
+func (g *c20Gen) value() pval {
+	switch g.c.Intn(5) {
+	case 0:
+		return pNull
+	case 1:
+		return pval{typ: "ARRAY", text: "[1, two]", truth: true}
+	case 2:
+		return pval{typ: "HASH", text: "{k: 1}", truth: true}
+	default:
+		return g.lit()
 	}
 }
 
@@ -424,6 +446,8 @@ func (s *c20Side) addFn(name, kind string, m *c20Model) {
 		case "count":
 			s.cnt[name]++
 			return &object.Integer{Value: s.cnt[name]}
+		case "collect":
+			return &object.Array{Elements: args}
 		}
 		// the model's value for this kind, as an engine object
 		tmp := &c20Model{counts: map[string]int64{}}
@@ -493,7 +517,7 @@ func (p *c20) runAPI(c *verifsim.Chooser, st *Stats, render bool) *Outcome {
 		}
 	}
 	for i := c.Intn(3); i > 0; i-- {
-		setVar(c20VarNames[c.Intn(4)], g.lit())
+		setVar(c20VarNames[c.Intn(4)], g.value())
 	}
 	// 0 none, 1 sim context that never cancels, 2 expired, 3 cancels at tick k
 	ctxKind := []int{0, 0, 0, 1, 1, 2, 3, 0}[c.Intn(8)]
@@ -510,10 +534,15 @@ func (p *c20) runAPI(c *verifsim.Chooser, st *Stats, render bool) *Outcome {
 		}
 		log("SetContext(sim, cancel at tick %d)", cancelAt)
 	}
+	flip := false
 	prepare := func() bool {
 		ok := true
 		for _, s := range sides {
-			err, esc := doPrepare(s.e, s.opt)
+			opt := s.opt
+			if flip {
+				opt = !opt
+			}
+			err, esc := doPrepare(s.e, opt)
 			if esc != nil {
 				o.violate("C20/api-model", "Prepare panics", "%s: %s", s.name, esc.Value)
 				ok = false
@@ -546,7 +575,7 @@ func (p *c20) runAPI(c *verifsim.Chooser, st *Stats, render bool) *Outcome {
 	for i := 0; i < nops && !stop(); i++ {
 		switch c.Intn(6) {
 		case 0:
-			setVar(c20VarNames[c.Intn(4)], g.lit())
+			setVar(c20VarNames[c.Intn(4)], g.value())
 		case 1:
 			name := c20VarNames[c.Intn(len(c20VarNames))]
 			want := pNull
@@ -566,7 +595,29 @@ func (p *c20) runAPI(c *verifsim.Chooser, st *Stats, render bool) *Outcome {
 			}
 			log("GetVariable(%s) = %s", name, want.show())
 		case 2:
-			if c.Intn(3) == 1 {
+			switch c.Intn(4) {
+			case 1:
+				if !prepare() {
+					return o
+				}
+			case 2:
+				// Prepare again with the other optimizer setting
+				flip = !flip
+				log("(optimizer settings swapped)")
+				if !prepare() {
+					return o
+				}
+			case 3:
+				// a new context, installed the documented way: SetContext, Prepare
+				if ctxKind != 0 {
+					break
+				}
+				ctxKind, cancelAt = 2, 0
+				for _, s := range sides {
+					s.ctx = verifsim.NewSimContext(cancelAt)
+					s.e.SetContext(s.ctx)
+				}
+				log("SetContext(sim, already expired) + Prepare")
 				if !prepare() {
 					return o
 				}
